@@ -9,10 +9,51 @@ import (
 	"vsimrt/simrt"
 )
 
-type (
-	Pool   = sync.Pool
-	Locker = sync.Locker
-)
+type Locker = sync.Locker
+
+// Pool replaces sync.Pool by a last-in-first-out free list that belongs to one simulated run: what a run leaves in a pool
+// is dropped when the next run of the same process begins (a run must be a function of its tape alone, and sync.Pool's
+// per-P caches and GC-driven eviction are neither), and within a run a released object is always the next one handed out,
+// so state that survives in a pooled object meets its next user as early as possible.
+type Pool struct {
+	New   func() any
+	mu    sync.Mutex
+	epoch uint64
+	items []any
+}
+
+func (p *Pool) Get() any {
+	p.mu.Lock()
+	if e := simrt.Epoch(); e != p.epoch {
+		p.epoch, p.items = e, nil
+	}
+	if n := len(p.items); n > 0 {
+		x := p.items[n-1]
+		p.items[n-1] = nil
+		p.items = p.items[:n-1]
+		p.mu.Unlock()
+		return x
+	}
+	p.mu.Unlock()
+	if p.New != nil {
+		return p.New()
+	}
+	return nil
+}
+
+func (p *Pool) Put(x any) {
+	if x == nil {
+		return
+	}
+	p.mu.Lock()
+	if e := simrt.Epoch(); e != p.epoch {
+		p.epoch, p.items = e, nil
+	}
+	if len(p.items) < 64 {
+		p.items = append(p.items, x)
+	}
+	p.mu.Unlock()
+}
 
 // Map wraps sync.Map: every operation is a scheduling point and Range visits keys in a deterministic order.
 type Map struct{ m sync.Map }
